@@ -112,6 +112,22 @@ PROPS = {
         trusted=COMMON_TRUST + ["verif hooks tor/export_verif.go (VerifFileChunks, VerifWebseedGR), tor/piece/export_verif.go (VerifData)", "loopback HTTP server of the harness"],
         assumptions=[],
     ),
+    "C07": dict(
+        level_text="The plain and the MSE handshake of both roles are programs (Model/Mse.v: client_prog, server_prog) over the read primitives of Model/Hs.v (readMore, synchronise, Write, crand.Read, switch to RC4). Theorem c07_segmentation_independent: for every program, every peer byte stream (given in causal phases), every random tape and every list of read sizes, the operational run (buffer, Reads of oracle-chosen sizes, surplus kept as init) has the outcome, written bytes and delivered bytes (init ++ rest of connection, decrypted) of the reference run that knows nothing of reads, unless the peer broke the MSE framing (p_amb). c07_two_segmentations: two segmentations cannot be told apart in either role. c07_plain_agreement: both ends of a plain handshake succeed, agree on info-hash, ids, capability bits, and each delivers exactly the other's payload. SHA-1, RC4 and the 768-bit modular exponentiation are implemented in Gallina (Base/Crypto.v), so the model is an independent MSE implementation. Tie: 300 (quick) real handshake runs - storrent against storrent and against a scripted MSE peer written from the specification (all pad lengths incl. 0 and 512, IA lengths 0..>68, early and late data, every crypto_provide/select, truncation) - each scenario under several segmentations (coalesced, byte at a time, single cut points incl. the buffer-arithmetic boundaries, random cuts; every cut point 1..260 in the thorough tier), crypto/rand replaced by a tape; the operational model is replayed with the logged read sizes and compared on outcome, result fields, (capacity, n) of every Read, bytes written, bytes delivered and post-handshake wire bytes. Monitors on the implementation alone: same stream under different cuts gives the same outcome/delivered/written bytes; delivered = what the peer sent; the two ends of a pair agree.",
+        level_note="MSE agreement between the two ends is a monitor over real runs, not a theorem (the plain case is a theorem); write errors and deadlines are not modelled; reads are modelled as returning at least one byte.",
+        harness="handshake", args=["-prop", "C07"], check_module="MseCheck",
+        n_quick=300, n_thorough=4000,
+        trusted=COMMON_TRUST + ["the harness's in-memory pipe (cut schedule, causal tagging of writes) and its scripted MSE peer (Go stdlib sha1/rc4/big)", "crypto/rand.Reader replaced by a deterministic tape", "Check/DhTable.v caches modexp values (proved equal to modexp)"],
+        assumptions=["a conn.Read returns at least one byte or an error", "the peer's bytes tagged k by the pipe are not available before storrent's k-th Write"],
+    ),
+    "C08": dict(
+        level_text="c08_policy_table: exhaustively for both handshake kinds and all 64x64 option pairs, storrent-to-storrent connects only in a mode both policies permit and both ends believe the same mode. c08_server_any_peer / c08_client_any_peer: against any peer (every crypto_provide / crypto_select value, any stream, any segmentation) a handshake that succeeds returns a connection whose mode its own options permit (via all_done over the handshake program). c08_conn_transparent: for any key, any sequence of Conn.Write calls of any sizes and any short or failing underlying write, the wire holds exactly the reported number of bytes, which decrypt to that prefix of what was written; c08_read_pieces, c08_roundtrip. Keys are derived inside Coq from the MSE specification (SHA-1, RC4 with 1024 bytes discarded, DH mod P768) and every byte storrent writes during the handshake is compared with the model's. Tie: the full 2x64x64 grid run on the real handshakes on every run (8192 cells: outcome, type of returned conn, payload visible on the wire or not, agreement), 140 handshake runs as in C07 incl. the independent scripted peer (interoperation), and scripted Write/Read sequences on a real crypto.Conn over a connection that accepts short or fails (sizes around 32 KiB).",
+        level_note="tor.DialClient's fallback between handshake kinds is modelled (dial_first/dial_retry) but not exercised: the guard added to protocol.ClientHandshake makes the policy independent of it. Concurrency of Conn (mutexes) is not modelled.",
+        harness="handshake", args=["-prop", "C08"], check_module="MseCheck",
+        n_quick=160, n_thorough=1600,
+        trusted=COMMON_TRUST + ["verif hook crypto/export_verif.go (VerifNewConn, VerifIsConn)", "the harness's in-memory pipe with scripted write failures and its scripted MSE peer", "crypto/rand.Reader replaced by a deterministic tape"],
+        assumptions=[],
+    ),
 }
 
 # properties not claimed, each with a reason (kept current as checks are added)
